@@ -939,6 +939,11 @@ def derived_cases(draw):
         if op[0] == "thr":
             op = ["thr", thr_spec()]
         lst.append(op)
+    if cls == "hilbert" and draw(st.integers(0, 2)) > 0:
+        # the direction is toggled after construction in two thirds of the
+        # Hilbert histories (and possibly back by a later drawn op)
+        lst.insert(draw(st.integers(0, len(lst))),
+                   ["dir", not case.get("directed")])
     case["ops"] = lst
     return case
 
